@@ -52,6 +52,14 @@ def claims(TRUST):
             "in key space AC; FileLocationBase/FileLocation and the index key put the key space into every file name and index key (kind-prefixed lookup keys, ac.v2/cas.v2/raw.v2 directories); diskCache.get serves a zstd read only from the CAS.",
             TRUST + "NOT under contract: GetActionResult and the HTTP handler's use of the transformed key and of RAW vs AC, so 'identically over HTTP and gRPC' is not decided.",
             "contract-based deductive verification: functional postcondition over abstract byte streams, call-site assertions on the key passed to the cache"),
+        "C19": (
+            "Deductive proof of the refusal half of the property for the effective configuration: whenever config.validateConfig returns nil, the set-ups the property lists are absent - dir set and max_size > 0, storage mode and zstd "
+            "implementation from the allowed sets, at most one proxy backend (counted over all five), http_address and (when enabled) grpc_address either a unix:// path that is not empty or accepted by net.SplitHostPort, HTTP and gRPC TCP "
+            "ports different, TLS certificate and key given together, client CA only with certificate and key, allow_unauthenticated_reads only with an authentication mechanism, both blob limits positive, the remote asset API only with "
+            "gRPC enabled, log settings from the allowed sets - for every Config value (858 obligations over all return paths).",
+            TRUST + "net.SplitHostPort is uninterpreted (splitPort / splitOK). NOT decided: the 'flags, environment and YAML agree' half (urfave/cli and yaml.v3 are library code whose parsing cannot be brought under contract here), "
+            "defaults, the deprecated host/port forms, and that main() refuses to start when Get returns an error.",
+            "contract-based deductive verification: postconditions of the validator written from the property's list of refused set-ups"),
         "C20": (
             "Deductive proof that what this build writes and reads is the published v2 layout: header.write emits exactly seven little-endian fields in the published order and widths (magic 0x184D2A50 as uint32, frame size "
             "uint32 = 21 + 8*len(offsets), logical size int64, compression uint8, chunk size uint32, offset count int64, offsets []int64) - call-site obligations on the dynamic type and value of every binary.Write argument; "
